@@ -9,4 +9,5 @@ MCVals == @VALS@
 MCRes == @RES@
 MCBounds == <<5, 10>>
 MCScopes == @SCOPES@
+MCSpanFlags == @SPANFLAGS@
 =============================================================================
